@@ -1,7 +1,7 @@
 #!/bin/bash
 # try_seed.sh <scratch> <id> <patch> [tier]: apply patch in scratch copy, run ./check id, reverse the patch
 sc="$1"; id="$2"; patch="$3"; tier="${4:-quick}"
-[ -d "$sc" ] || /verif/tools/mkscratch.sh "$sc" >/dev/null
+/verif/tools/mkscratch.sh "$sc" >/dev/null
 ( cd "$sc" && git apply --unsafe-paths "$patch" ) || { echo "$id: patch does not apply"; exit 2; }
 out=$(cd /verif && VERIF_REPO="$sc" timeout 3000 ./check "$id" "$tier" 2>&1); rc=$?
 ( cd "$sc" && git apply -R --unsafe-paths "$patch" )
